@@ -199,6 +199,10 @@ where
                 let will_animate = self.timelines.get(state).is_some();
                 if was_animating && !will_animate {
                     self.paused_animation = Some((self.current_state.clone(), self.state_duration));
+                } else if will_animate {
+                    // Another animation takes over; a later return to the paused state has to blend
+                    // from wherever that one leaves off instead of resuming a stale position.
+                    self.paused_animation = None;
                 }
                 self.blend_next_timeline(state);
                 self.state_duration = Duration::ZERO;
